@@ -75,6 +75,10 @@ impl BytesMut {
     { unimplemented!() }
 
     #[verifier::external_body]
+    pub fn clear(&mut self)
+        ensures final(self)@.len() == 0,
+    { unimplemented!() }
+    #[verifier::external_body]
     pub fn truncate(&mut self, len: usize)
         ensures final(self)@ == (if len <= old(self)@.len() { old(self)@.subrange(0, len as int) } else { old(self)@ }),
     { unimplemented!() }
